@@ -21,7 +21,8 @@ POS = ["SumScaler", "VectorScaler", "MaxAbsScaler", "InvertMinimize"]
 def gen_case(rng):
     positive = rng.random() < 0.6
     c = gen.dm_case(rng, nmax=7, mmax=5, nmin=2, mmin=1, positive=positive,
-                    modes=("dyadic", "int", "tiny123") if positive else ("dyadic", "int", "tiny012"), big=0.0)
+                    modes=("dyadic", "int", "tiny123") if positive else ("dyadic", "int", "tiny012"), big=0.0,
+                    int_dtypes=0.5)
     steps, pos = [], positive
     for _ in range(rng.randint(1, 4)):
         name = rng.choice(ANY + (POS if pos else []))
